@@ -89,6 +89,7 @@ impl Monitor for C20 {
 
 pub fn profile() -> Profile {
     let mut p = Profile::general();
+    p.past_legacy_half = true;
     p.net_w = [40, 22, 26, 12, 0, 0, 0, 0, 0];
     p.p_teleport = 1;
     p.p_mut = 25;
